@@ -53,6 +53,7 @@ WORLDS = {
     'cli': dict(build=build_cli),
     'bytes': {},
     'masked': dict(build=build_masked),
+    'keystore': dict(cflags=['-DASIM_REPO="%s"' % B.REPO]),
 }
 
 
@@ -226,7 +227,25 @@ def check_C10(tier, seed):
     return o.finish()
 
 
+def check_C06(tier, seed):
+    o = D.Outcome('C06', tier, seed)
+    o.components = dict(real=COMPONENTS_LIB['real'], stub=['none: the simulator decides the history (packets, save, restart into clean or dirty memory, free) '
+                                                           'and keeps the saved image as the only durable state'])
+    o.assumptions = ['reference models of ISAP v2.0 and of the documented SIV construction written over the library\'s public permutation API, '
+                     'self-tested against test/kat/ISAP-A-*.txt and ASCON-*-SIV.txt at start-up (failure => exit 2)',
+                     'for SIV the keystream pass follows the property anchor and the KAT files (permute-then-squeeze); doc/siv.dox prose differs and is not used',
+                     'the "equals the specification" clauses are model-based sampling of inputs; the history part (packets on one key, save/load/restart) is the simulation target']
+    n = 30000 if tier == 'quick' else 600000
+    cfgs = [('asm', (4, 2, 4))] if tier == 'quick' else [('asm', (4, 2, 4)), ('c64', (4, 2, 4)), ('c32', (4, 2, 4)), ('dxor', (4, 2, 4)), ('gen', (4, 2, 4))]
+    for i, (be, sh) in enumerate(cfgs):
+        exe = world_exe('keystore', be, sh, 'rel')
+        o.add(D.run_batch(exe, n if i == 0 else n // 6, tier, seed, label='keystore@%s' % be, crash_prop='C12'))
+    o.extra['distinct_states_measure'] = 'visited (algorithm, operation, tamper kind, message/AD length class, object restored-from-saved) tuples'
+    return o.finish()
+
+
 CHECKS = {
+    'C06': check_C06,
     'C10': check_C10,
     'C20': check_C20,
     'C19': check_C19,
@@ -243,6 +262,7 @@ SETUP_BUILDS = [
     lambda: world_exe('cli'),
     lambda: world_exe('bytes'),
     lambda: world_exe('bytes', 'asm', (4, 2, 4), 'nostl'),
+    lambda: world_exe('keystore'),
     lambda: world_exe('masked'),
     lambda: world_exe('masked', 'c64', (3, 3, 3)),
     lambda: world_exe('masked', 'c32', (2, 1, 2)),
